@@ -85,16 +85,6 @@ pub use std::{
     },
 };
 
-/// `thread_local!` of the simulator (one instance per simulated thread) with
-/// `--cfg graaf_verif_shuttle`, of `std` otherwise. The function-scope imports
-/// cannot redirect a macro; the checks compile a copy of the sources in which
-/// `thread_local!` is written `crate::verif_seam::thread_local!` when the
-/// library uses it.
-#[cfg(graaf_verif_shuttle)]
-pub use shuttle::thread_local;
-#[cfg(not(graaf_verif_shuttle))]
-pub use std::thread_local;
-
 /// Stand-in for `std::thread`, for call sites written `thread::spawn`.
 pub mod thread {
     #[cfg(graaf_verif_shuttle)]
